@@ -111,3 +111,19 @@ func wAlloc() uint64 {
 	runtime.ReadMemStats(&m)
 	return m.TotalAlloc
 }
+
+// F13: witness-flagged transaction without any witness item ("superfluous witness record")
+func TestWitnessF13SuperfluousWitness(t *testing.T) {
+	b := []byte{1, 0, 0, 0, 0, 1, 1} // version, marker, flag, 1 input
+	b = append(b, make([]byte, 36)...)
+	b = append(b, 0)                      // empty scriptSig
+	b = append(b, 0xff, 0xff, 0xff, 0xff) // sequence
+	b = append(b, 1)                      // 1 output
+	b = append(b, 1, 0, 0, 0, 0, 0, 0, 0, 0)
+	b = append(b, 0)          // witness stack of input 0: no items
+	b = append(b, 0, 0, 0, 0) // lock time
+	tx, offs := NewTx(b)
+	if tx != nil {
+		t.Fatalf("F13: NewTx accepted a witness-flagged transaction without witness (%d bytes)", offs)
+	}
+}
